@@ -332,7 +332,7 @@ def apply(ctx, W):
         ensures=[
             ("reg_wf(&final(semantic).type_registry)", ("C10",), "build-keeps-reg-wf"),
             ("keys_kept(&old(semantic).type_registry, &final(semantic).type_registry)", ("C10", "C14"), "build-keys-kept"),
-            ("final(semantic).modules@.dom() == old(semantic).modules@.dom()", ("C10",), "build-keeps-modules"),
+            ("modules_frame(old(semantic).modules@, final(semantic).modules@)", ("C05", "C10", "C14", "C15"), "build-keeps-modules"),
             ("final(semantic).type_registry.pointer_size == old(semantic).type_registry.pointer_size", ("C10",), "build-keeps-pointer-size"),
             ("registry_frame(&old(semantic).type_registry, &final(semantic).type_registry, *resolvee_path)", ("C10", "C19"), "build-attempt-frame"),
             ("""res is Ok && res->Ok_0 is Some ==> ({
